@@ -38,7 +38,7 @@ def mrts_choices(T, step):
 
 
 def maxtau_choices(T, step):
-    return [None, None, 0, step / 2, step, 2 * step, T / 4, T / 2, 2 * T]
+    return [None, None, 0, step / 2, step, 2 * step, T / 4, T / 2, 0.75 * T, T, 2 * T]
 
 
 def dyadic_pair(rng, tier, nmax=None):
@@ -273,7 +273,12 @@ def rand_breaks(rng, ts, te, grid, maxn=12, dyadic=True):
 def pwc_func(rng, ts, te, grid, shared=None, int_valued=False, dyadic=True):
     x = rand_breaks(rng, ts, te, grid, dyadic=dyadic)
     if shared and rng.random() < 0.4:
-        inner = sorted(set(x[1:-1]) | set(rng.sample(shared, min(len(shared), rng.randint(1, 3)))))
+        pick = rng.sample(shared, min(len(shared), rng.randint(1, 3)))
+        if not dyadic or rng.random() < 0.15:
+            # near ties: a breakpoint of another operand moved by 1 ulp / 1e-9 relative / 1e-6 of the recording
+            pick = [rng.choice([t, math.nextafter(t, math.inf), math.nextafter(t, -math.inf), t * (1 + 1e-9), t + (te - ts) * 1e-6])
+                    for t in pick]
+        inner = sorted(t for t in (set(x[1:-1]) | set(pick)) if ts < t < te)
         x = [ts] + inner + [te]
     if int_valued:
         y = [rng.randint(0, 5) for _ in range(len(x) - 1)]
@@ -327,6 +332,24 @@ def history(rng, kind, tier):
             f = pwl_func(rng, ts, te, grid, shared, dyadic=dyadic, int_valued=int_valued)
         else:
             f = disc_func(rng, ts, te, grid, shared)
+        if funcs and rng.random() < 0.12:
+            # near-copy of an earlier operand's support: same number of breakpoints, each moved by <= 1e-6 relative
+            src = rng.choice(funcs)
+            xs = [src["x"][0]]
+            for t in src["x"][1:-1]:
+                u = rng.choice([t, t, math.nextafter(t, math.inf), t * (1 + 1e-9), t + (te - ts) * 1e-7, t - (te - ts) * 1e-7])
+                if xs[-1] < u < te:
+                    xs.append(u)
+            xs.append(src["x"][-1])
+            n_ = len(xs) - 1
+            if kind == "pwc":
+                f = {"x": xs, "y": [rng.choice(VALS) for _ in range(n_)]}
+            elif kind == "pwl":
+                f = {"x": xs, "y1": [rng.choice(VALS) for _ in range(n_)], "y2": [rng.choice(VALS) for _ in range(n_)]}
+            elif len(xs) > 2:
+                mpv = [float(rng.choice([1, 1, 2])) for _ in xs[1:-1]]
+                yv = [float(rng.randint(0, int(m))) for m in mpv]
+                f = {"x": xs, "y": [yv[0]] + yv + [yv[-1]], "mp": [mpv[0]] + mpv + [mpv[-1]]}
         shared = sorted(set(shared) | set(f["x"][1:-1]))
         funcs.append(f)
     nops = rng.randint(1, 8 if tier == "quick" else 12)
